@@ -97,6 +97,8 @@ class Gen:
         m.append({"k": U("groups"), "v": {"t": "O", "m": [{"k": U(k), "v": self.doc(1) if self.r.random() < 0.3 else {"t": "A", "e": [self.scalar() for _ in range(self.r.randint(0, 2))]}}
                                                           for k in self.r.sample(["<b>", "q&a", "a>b", "plain", "&amp;", "x&lt;"], self.r.randint(1, 4))]}})
         m.append({"k": U("deep"), "v": {"t": "A", "e": [{"t": "A", "e": [self.scalar() for _ in range(self.r.randint(0, 3))]} for _ in range(self.r.randint(0, 3))]}})
+        if self.r.random() < 0.5:      # an array long enough for "index" 10 / 11 (what ':' and ';' would be as digits)
+            m.append({"k": U("long"), "v": {"t": "A", "e": [numdoc(16 * (100 + i)) for i in range(12)]}})
         for k in self.r.sample(KEYS[:8], self.r.randint(1, 4)):
             if all(mm["k"] != U(k) for mm in m):
                 m.append({"k": U(k), "v": self.doc(2)})
@@ -144,7 +146,7 @@ class Gen:
             elif cur is not None and cur["t"] == "A" and cur["e"] and self.r.random() < 0.85:
                 k = U(str(self.r.randrange(len(cur["e"]))))
             else:
-                k = U(self.r.choice(["zz", "7", "a"]))
+                k = U(self.r.choice(["zz", "7", "a", ":", "1/", ";"]))      # (":" is '0' + 10: only decimal digits name an element)
             steps.append(k)
             cur = self.lookup(cur, k)
             text += "[" + "".join(chr(u) for u in k) + "]"
@@ -176,6 +178,9 @@ class Gen:
 
     # ---------------- nodes
     def text_node(self, attr=False, other_quote=""):
+        if not attr and self.r.random() < 0.06:     # literal HTML whose element name starts like a tag of the engine
+            s = self.r.choice(['<iframe src="x">', "</iframe>", "<ifoo>", "<i>", "<input>", "<img>"])
+            return {"t": "text", "s": U(s)}, s
         pool = "abc xyz 0123 .,;:!?-_=+*/\n\t" if not attr else "abc xyz 012 .,;:!-_"
         if not attr:
             pool += "&>'\")]"
